@@ -327,7 +327,7 @@ var oddFieldValues = []string{
 // values that are not valid UTF-8 (kept apart: see the field re-encoding finding)
 var nonUTF8FieldValues = []string{"\xff", "a\xc3", "\xfe\xfex", "ok\x80", "q\"\xff\\b\n\x01", "1e3\xff", " \xa0 "}
 
-var fieldNames = []string{"speed", "Speed", "a", "b", "heading", "a b", "naïve", "f.x", "props", "n0", "zz", "Z9"}
+var fieldNames = []string{"speed", "Speed", "a", "b", "heading", "a b", "naïve", "f.x", "props", "n0", "zz", "Z9", "Z", "Lat", "LON"}
 
 func genObject(rng *rand.Rand) []string {
 	f := func(lo, hi float64) string {
@@ -398,7 +398,7 @@ func genSet(rng *rand.Rand, key, id string, allowNonUTF8 bool) []string {
 	}
 	if rng.Intn(30) == 0 {
 		// a name with surrounding white space: stored trimmed; a reserved name must not get through
-		args = append(args, "FIELD", []string{" z", "lat ", "\tlon", " speed ", " Z", "  b\n", " z", "heading\r\n"}[rng.Intn(8)], "7")
+		args = append(args, "FIELD", []string{" z", "lat ", "\tlon", " speed ", " Z", "  b\n", " z", "heading\r\n", " Lat", "LON ", "lAt"}[rng.Intn(11)], "7")
 	}
 	if rng.Intn(4) == 0 {
 		args = append(args, "EX", []string{"1000", "500.75", "86400", "3600.05"}[rng.Intn(4)])
